@@ -15,7 +15,7 @@ META = dict(
          "draining both channels. Consumer: AsyncClose/Close of the partition consumer after the k-th delivery for every k, combined with "
          "fetch faults (silence, leader error) and a slow reader; the partition consumer and the consumer are closed twice. TLC checks that "
          "Close returns (watchdog 8 s), that the output channels are closed, that nothing is delivered after the close, and that no panic "
-         "occurred (PanicHandler events and process crashes are both mapped to no_panic). Consumer group: Close/cancel at join, sync, setup, claim, cleanup, idle, with an empty assignment, during a rebalance, with an unreachable coordinator, LeaveGroup failing, double Close (C07's simulated coordinator; clauses consume_hang, close_hang, consume_panic). Offset manager and broker connection shutdown are exercised by the checks of C06 and C14.",
+         "occurred (PanicHandler events and process crashes are both mapped to no_panic). Consumer group: Close/cancel at join, sync, setup, claim, cleanup, idle, with an empty assignment, during a rebalance, with an unreachable coordinator, LeaveGroup failing, double Close (C07's simulated coordinator; clauses consume_hang, close_hang, consume_panic). Offset manager: 43 scenarios (idle, mid-request, coordinator failing or unreachable, marks racing with Close, Close twice; C06's simulated coordinator; clauses close_hang, close_panic, errors_closed_after_close). Broker connection shutdown (Close racing with calls) is exercised by the check of C14.",
     note="documented close order is followed; the application always services the output channels; crash points are 'after the k-th "
          "scenario step', not after every internal event; bounded models",
     design_ref="6/C12",
@@ -50,7 +50,10 @@ def run(ctx):
     # ---- consumer group shutdown corpus (built with C07's machinery: simulated coordinator, spec/GroupTrace.tla)
     import c07
     gviols, gstats, gtrace = c07.shutdown_family(ctx)
-    mine = [v for v in pviols if v["clause"] in pc.CLAUSES["C12"]] + [v for v in cviols if v["clause"] in cc.CLAUSES["C12"]] + gviols
+    # ---- offset manager shutdown corpus (C06's machinery: simulated coordinator, spec/OffsetManagerTrace.tla)
+    import c06
+    oviols, ostats, otrace = c06.shutdown_family(ctx)
+    mine = [v for v in pviols if v["clause"] in pc.CLAUSES["C12"]] + [v for v in cviols if v["clause"] in cc.CLAUSES["C12"]] + gviols + oviols
     cov = {
         "states": pst + mr.distinct + r1.distinct, "transitions": ptr + mr.generated + r1.generated,
         "model_runs": pdet + [{"module": "Consumer", "distinct_states": mr.distinct, "states_generated": mr.generated}],
@@ -59,8 +62,9 @@ def run(ctx):
         "producer_close_point_scenarios": len(cps), "consumer_close_point_scenarios": len(ccs) + len(slow),
         "producer_run_counts": {k: pstats.get(k, 0) for k in ("successes", "errors", "requests", "retried", "gates", "unsteered")},
         "consumer_run_counts": {k: cstats.get(k, 0) for k in ("delivered", "fetches", "faults", "stalls")},
+        "offset_manager_shutdown": {k: v for k, v in ostats.items() if isinstance(v, (int, float, str))},
         "group_shutdown": {k: gstats.get(k) for k in ("scenarios", "close_calls", "close_returns", "consume_returns", "cancels")},
-        "clauses": sorted(pc.CLAUSES["C12"] | cc.CLAUSES["C12"] | {"consume_hang", "close_hang", "consume_panic"}),
+        "clauses": sorted(pc.CLAUSES["C12"] | cc.CLAUSES["C12"] | {"consume_hang", "close_hang", "consume_panic", "channels_closed_after_close", "close_panic", "errors_closed_after_close"}),
         "explanation": "crash-point enumeration: Close/AsyncClose after the k-th step of every corpus scenario, on the real producer and consumer",
     }
     return vlib.finish(ctx, "model_checking", cov, mine,
